@@ -997,6 +997,45 @@ impl Grammar {
     }
 }
 
+#[cfg(feature = "verif_hooks")]
+impl Grammar {
+    /// Structured copy of the rule table for external monitors.
+    pub fn verif_dump(&self) -> crate::verif_hooks::GrammarDump {
+        use crate::verif_hooks::{GrammarDump, RuleDump, SymDump};
+        GrammarDump {
+            start: self.start().as_usize(),
+            symbols: self
+                .symbols
+                .iter()
+                .map(|s| SymDump {
+                    name: s.name.clone(),
+                    lexeme: s.lexeme.map(|l| l.as_usize()),
+                    gen_grammar: s.gen_grammar.as_ref().map(|g| g.grammar.to_string()),
+                    max_tokens: s.props.max_tokens,
+                    capture_name: s.props.capture_name.clone(),
+                    stop_capture_name: s.props.stop_capture_name.clone(),
+                    temperature: s.props.temperature,
+                    grammar_id: s.props.grammar_id.as_usize(),
+                    is_start: s.props.is_start,
+                    parametric: s.props.parametric,
+                    rules: s
+                        .rules
+                        .iter()
+                        .map(|r| RuleDump {
+                            condition: r.condition.clone(),
+                            rhs: r
+                                .rhs
+                                .iter()
+                                .map(|(s, p)| (s.as_usize(), p.clone()))
+                                .collect(),
+                        })
+                        .collect(),
+                })
+                .collect(),
+        }
+    }
+}
+
 impl Debug for Grammar {
     fn fmt(&self, f: &mut std::fmt::Formatter<'_>) -> std::fmt::Result {
         write!(f, "{}", self.to_string(None))
